@@ -97,6 +97,19 @@ CORPUS = [
 ]
 
 
+# several pieces that only TOGETHER exceed what a container can hold (each below 2**63 values, the sum not), with and
+# without a combination (seed C06-4); one value below the limit for contrast
+for _r in ("1-5000000000000000000,6000000000000000000-11000000000000000000", "0-4611686018427387903,4611686018427387905-9223372036854775808",
+           "0-4611686018427387903,4611686018427387905-9223372036854775806", "1-4000000000000000000:2,5000000000000000000-9000000000000000001:3,-9000000000000000000--1"):
+    for _comb in (None, "T"):
+        _ps = {"taskParameterDefinitions": [{"name": "T", "type": "INT", "range": "{{Param.R}}"}]}
+        if _comb:
+            _ps["combination"] = _comb
+        CORPUS.append({"doc": _jt([{"name": "R", "type": "STRING"}], {"parameterSpace": _ps}), "envs": [], "vals": {"R": _r}})
+        _ps2 = dict(_ps, taskParameterDefinitions=[{"name": "T", "type": "INT", "range": _r}])
+        CORPUS.append({"doc": _jt([], {"parameterSpace": _ps2}), "envs": [], "vals": {}})
+
+
 def conflicting_env(rng, p):
     """an environment definition of parameter p whose constraints cannot be met together with p's"""
     q = {"name": p["name"], "type": p["type"]}
